@@ -550,14 +550,26 @@ func (e *Env) call(n ECall) Term {
 	case "fresh":
 		need(1)
 		x := arg(0)
-		oa := e.c.aliveCur(e.old)
-		if e.assumeMode {
-			ca := e.c.aliveCur(e.cur)
-			e.cur.heap[aliveKey] = Term{S: fmt.Sprintf("(store %s %s true)", ca.S, x.S), Sort: ca.Sort}
-			return and(mk(SBool, "(not (select %s %s))", oa.S, x.S), mk(SBool, "(not (= %s 0))", x.S))
+		refs := []Term{x}
+		if x.GoT != nil && isStructPtr(x.GoT) {
+			refs = append(refs, e.c.subObjects(e.cur, x, deref(x.GoT), 0)...)
 		}
-		ca := e.c.aliveCur(e.cur)
-		return and(mk(SBool, "(not (select %s %s))", oa.S, x.S), mk(SBool, "(select %s %s)", ca.S, x.S), mk(SBool, "(not (= %s 0))", x.S))
+		oa := e.c.aliveCur(e.old)
+		var parts []Term
+		for i, r := range refs {
+			if e.assumeMode {
+				ca := e.c.aliveCur(e.cur)
+				e.cur.heap[aliveKey] = Term{S: fmt.Sprintf("(store %s %s true)", ca.S, r.S), Sort: ca.Sort}
+				parts = append(parts, mk(SBool, "(not (select %s %s))", oa.S, r.S))
+			} else {
+				ca := e.c.aliveCur(e.cur)
+				parts = append(parts, mk(SBool, "(not (select %s %s))", oa.S, r.S), mk(SBool, "(select %s %s)", ca.S, r.S))
+			}
+			if i == 0 {
+				parts = append(parts, mk(SBool, "(not (= %s 0))", r.S))
+			}
+		}
+		return and(parts...)
 	case "isnew":
 		// allocated after the entry of the function under verification
 		need(1)
